@@ -138,26 +138,46 @@ def to_points(d, kind, shape):
     return np.moveaxis(d, 2, -1).reshape(-1, d.shape[2])
 
 
-def replay_group(chk, basis, hist, recs, shape, dtype, dask, kwi, chunk_axis=0):
-    """one (starting basis, history): all lattice points at once.  -> number of samples judged"""
+def replay_group(chk, basis, hist, recs, shape, dtype, dask, kwi, chunk_axis=0, z=None, batch=None):
+    """one (starting basis, history): all lattice points at once.  -> number of samples judged.
+    With batch = {...} (description of the batch this run belongs to) the real calls are made now but the result is
+    judged later: -> (result signal, finish(data=None) -> number judged)."""
     import common
     kind = recs[0]["cur"]["kind"]
     o = np.array([r["o"] for r in recs], dtype=float)
     a, b = o[:, 0] + 1j * o[:, 1], o[:, 2] + 1j * o[:, 3]
-    z = build(a, b, shape, basis, dtype, dask, kwi, chunk_axis)
-    where = "%s %s -> %s shape=%r %s %s [session converts %s data first]" % (
+    if z is None:
+        z = build(a, b, shape, basis, dtype, dask, kwi, chunk_axis)
+    where = "%s %s -> %s shape=%r %s %s [session converts %s data first]%s" % (
         basis, "[X,Y]" if basis == "linear" else "[L,R]", ".".join(hist) or "(nothing)", tuple(z.shape), dtype,
-        ("dask chunks %r" % (z.data.chunks,)) if dask else "numpy", SESSION[0])
+        ("dask chunks %r" % (z.data.chunks,)) if dask else "numpy", SESSION[0],
+        (" [%s]" % batch["what"]) if batch else "")
 
     def case(i):
+        if batch:
+            return dict(batch["case"], kind="batch", first_dtype=SESSION[0])
         return {"kind": "gen", "o": recs[i]["o"], "basis": basis, "hist": hist, "cur": recs[i]["cur"], "dtype": dtype,
                 "dask": dask, "kwi": kwi, "first_dtype": SESSION[0], "chunk_axis": chunk_axis, "shape": list(shape)}
     try:
         y = apply(z, hist)
-        d = common.materialise(y)
     except Exception as e:  # noqa
         chk.violation("gen:raised", "%r | %s" % (e, where), case(0))
-        return 0
+        return (None, lambda d=None: 0) if batch else 0
+
+    def finish(d=None):
+        try:
+            d = common.materialise(y) if d is None else np.asarray(d)
+        except Exception as e:  # noqa
+            chk.violation("gen:raised", "%r | %s" % (e, where), case(0))
+            return 0
+        return _judge(d)
+
+    def _judge(d):
+        return _judge_group(chk, z, y, d, kind, basis, hist, recs, shape, dtype, a, b, where, case)
+    return (y, finish) if batch else finish()
+
+
+def _judge_group(chk, z, y, d, kind, basis, hist, recs, shape, dtype, a, b, where, case):
     neff, basis_exp = effective_conversions(basis, hist)
     for m in meta_diffs(z, y, kind, basis_exp):
         chk.violation("gen:meta:" + m.split()[0], m + " | " + where, case(0))
@@ -247,6 +267,90 @@ def replay_gen(chk, groups, rnd):
     chk.notes["histories_by_result_kind"] = kinds
     chk.notes["layouts"] = [list(s) for s in layouts]
     chk.notes["dask_runs_by_chunked_axis"] = chunked
+
+
+def _settle(pending, dask):
+    """judge a batch: every call of the batch has been made, every result object is still alive; Dask results are
+    computed together in ONE dask.compute call (one merged graph).  -> samples judged"""
+    import dask as dk
+    live = [(y, fin) for y, fin in pending if y is not None]
+    if dask and live:
+        try:
+            datas = dk.compute(*[y.data for y, _ in live], scheduler="synchronous")
+        except Exception:  # noqa   (let every member report its own failure)
+            datas = [None] * len(live)
+        return sum(fin(d) for (y, fin), d in zip(live, datas))
+    return sum(fin() for y, fin in live)
+
+
+def batch_inputs(groups, basis, hist, K, stride):
+    """K signals of equal geometry but different content: the lattice in K different orders"""
+    g = groups[(basis, tuple(hist))]
+    P = len(g)
+    return [[g[(i + k * stride) % P] for i in range(P)] for k in range(K)]
+
+
+def run_batch(chk, groups, spec):
+    """spec: {"type": "inputs" | "histories", basis, hists, shape, dtype, dask, chunk_axis, kwi, K}
+    inputs:    the same history on K different, equally shaped signals, one after the other
+    histories: several histories of equal result kind on the same signal
+    In both cases nothing is judged before the last call has returned."""
+    shape, dtype, dask, ca, kwi = tuple(spec["shape"]), spec["dtype"], spec["dask"], spec["chunk_axis"], spec["kwi"]
+    basis = spec["basis"]
+    pending = []
+    if spec["type"] == "inputs":
+        hist = spec["hists"][0]
+        b = {"what": "batch: %d equally shaped signals, judged after the last call%s"
+             % (spec["K"], ", one dask.compute" if dask else ""), "case": spec}
+        for recs in batch_inputs(groups, basis, hist, spec["K"], 37):
+            pending.append(replay_group(chk, basis, list(hist), recs, shape, dtype, dask, kwi, ca, batch=b))
+    else:
+        b = {"what": "batch: %d histories on one signal, judged after the last call%s"
+             % (len(spec["hists"]), ", one dask.compute" if dask else ""), "case": spec}
+        g0 = groups[(basis, tuple(spec["hists"][0]))]
+        o = np.array([r["o"] for r in g0], dtype=float)
+        z = build(o[:, 0] + 1j * o[:, 1], o[:, 2] + 1j * o[:, 3], shape, basis, dtype, dask, kwi, ca)
+        for hist in spec["hists"]:
+            pending.append(replay_group(chk, basis, list(hist), groups[(basis, tuple(hist))], shape, dtype, dask, kwi, ca, z=z, batch=b))
+    return _settle(pending, dask)
+
+
+def batch_specs(groups, tier):
+    P, layouts = lattice_layouts(groups)
+    K = 4 if tier == "thorough" else 3
+    specs = []
+    keys = sorted(groups)
+    for gi, (basis, hist) in enumerate(keys):
+        for bi, dask in enumerate((False, True)):
+            shape = layouts[(gi + bi + 1) % len(layouts)]
+            specs.append({"type": "inputs", "basis": basis, "hists": [list(hist)], "shape": list(shape), "K": K,
+                          "dtype": ("complex128", "complex64")[(gi + bi) % 2], "dask": dask,
+                          "chunk_axis": (gi + bi) % (len(shape) + 2), "kwi": gi})
+    for basis in ("linear", "circular"):
+        by_kind = {}
+        for (b, hist) in keys:
+            if b == basis:
+                by_kind.setdefault(groups[(b, hist)][0]["cur"]["kind"], []).append(list(hist))
+        for ki, (kind, hists) in enumerate(sorted(by_kind.items())):
+            for bi, dask in enumerate((False, True)):
+                for li in range(len(layouts) if tier == "thorough" else 2):
+                    shape = layouts[(ki + bi + 3 * li) % len(layouts)]
+                    specs.append({"type": "histories", "basis": basis, "hists": hists[:14], "shape": list(shape), "K": len(hists[:14]),
+                                  "dtype": ("complex128", "complex64")[(ki + li) % 2], "dask": dask,
+                                  "chunk_axis": (2 + ki + 3 * li) % (len(shape) + 2), "kwi": ki + li})
+    return specs
+
+
+def run_batches(chk, groups):
+    """results must not depend on what else is converted, kept alive or computed at the same time"""
+    n, cnt = 0, {"inputs": 0, "histories": 0}
+    for spec in batch_specs(groups, chk.tier):
+        spec["tier"] = chk.tier
+        n += run_batch(chk, groups, spec)
+        cnt[spec["type"]] += 1
+    chk.validated += n
+    chk.notes["batches"] = cnt
+    chk.notes["batch_samples_judged"] = n
 
 
 def child_session(arg):
@@ -447,6 +551,7 @@ def run(chk):
         chk.violation(key, desc, case)
     chk.validated += nchild
     chk.notes["second_session_complex64_first"] = {"lattice_samples": nchild, "trace_events": len(child_events)}
+    run_batches(chk, groups)
     run_trace(chk, rnd, child_events)
     run_histories(chk, rnd)
     chk.assumptions += [
@@ -455,6 +560,8 @@ def run(chk):
         "IEEE arithmetic: one conversion costs at most 4 ulp of the sample norm, Stokes parameters 4 ulp of I "
         "(8 ulp after a conversion); ulp of the input's float kind",
         "dtype widening of complex64 results under NumPy 2 (division by the float64 scalar sqrt(2)) is not judged",
+        "batches: K = 3 (4) equally shaped signals per history and all histories of one result kind per signal are converted "
+        "before anything is judged, Dask results in one dask.compute; other groupings are not explored",
         "two sessions (processes): complex128 conversions before complex64 ones and the reverse; other interleavings are not explored"]
 
 
@@ -476,6 +583,17 @@ def replay(doc):
             p = build(np.array([1 + 2j]), np.array([3 - 1j]), (1, 1), b, first, False)
             p.to_circular().to_linear().to_stokes()
             p.to_linear().to_circular()
+    if c["kind"] == "batch":
+        chk = framework.Check(PID, c.get("tier", "quick"), 0)
+        chk._known = []
+        groups = gen_cases(chk)            # the lattice and its expected values come from TLC again
+        run_batch(chk, groups, c)
+        bad = [v for v in chk.violations if v[0] == doc["key"]] or chk.violations
+        for key, desc, _ in bad[:6]:
+            print("VIOLATION property=C13 replay=(this case)  # %s: %s" % (key, desc[:400]))
+        if not bad:
+            print("case passes")
+        return 1 if bad else 0
     if c["kind"] == "gen":
         chk = framework.Check(PID, "quick", 0)
         chk._known = []
